@@ -1,20 +1,22 @@
 """C14 - history garbage collection only ever discards the oldest, unlocked history.
 
 Generator : (a) collections of 0-8 history files written into a scratch $XONSH_DATA_DIR: command
-            counts incl. 0, byte sizes (padding), closing/opening timestamps from seconds to years
-            (distinct), lock flags (locked-live ts[0] >= boot, locked-stale ts[0] < boot), zero-length
-            files, files without ts (what `history clear` writes), corrupt members (garbage, truncated,
-            plain JSON, directory, dangling link), members in the backwards-compatible directory and
-            behind a custom $XONSH_HISTORY_FILE, decoy files that do not match xonsh-*.json; a limit
-            (n, unit) for all four units placed *relative to the collection* (suffix sums +-1, prefix
-            sums +-1, total +-1, 0, negative, huge), delivered as tuple / spelled string
-            ("3 files", "15e1 s", "10kb") / $XONSH_HISTORY_SIZE / `history gc --size N unit`;
-            force on/off.  The harness owns the clock: xonsh.history.json.time and uptime.boottime are
-            replaced in the worker, so ages are exact.
+            counts incl. 0, byte sizes (padding of `out`), closing/opening timestamps from seconds to
+            years (distinct), lock flags (locked-live ts[0] >= boot incl. ts[0] == boot, locked-stale
+            ts[0] < boot), zero-length files, files without ts (what `history clear` writes), corrupt
+            members (garbage, truncated before the lock flag, plain JSON, directory, dangling link),
+            members in the backwards-compatible directory and behind a custom $XONSH_HISTORY_FILE,
+            well-formed decoy files whose names do not match xonsh-*.json; a limit (n, unit) for all
+            four units placed *relative to the collection* (suffix sums +-1, prefix sums +-1, total
+            +-1, half the oldest age, 0, negative, huge; optionally snapped to whole minutes / hours /
+            days / kb), delivered as tuple / spelled string ("3 files", "15e1 s", "10kb", "2 H") /
+            $XONSH_HISTORY_SIZE / `history gc --size N unit [--force]`; force on/off.
+            The harness owns the clock: the `time` module seen by xonsh.history.json / .sqlite and
+            uptime.boottime are replaced in the worker, so ages and the boot boundary are exact.
             (b) the complete small scope: every collection of <= 3 (quick) / <= 4 (thorough) files with
             counts in {0..2} / {0..3}, lock in {no, live, stale}, every limit 0..7 / 0..13, units
-            commands and files, forced and unforced - each run through the real JsonHistory.run_gc on
-            a real directory.
+            commands and files, forced and unforced - every one of them run through the real
+            JsonHistory.run_gc / `history gc` on a real directory (not only the pure selectors).
             (c) SQLite tables of 0-12 rows with distinct tsb inserted in arbitrary order from several
             sessions, limit N around the row count, all units, three ways of naming the database file.
 Oracle    : a model written from the property text.  Candidates = loadable files that are not
@@ -23,8 +25,13 @@ Oracle    : a model written from the property text.  Candidates = loadable files
             the amount to remove >= the limit (and > what is actually kept); where the two readings of
             "keeps" (the limit / what actually remains) disagree both outcomes are accepted; forced,
             exactly the model's set.  Independently of the arithmetic: a locked-live, unloadable or
-            non-history file is never deleted, a live file is never unlocked, and the deleted set is a
-            prefix of the oldest-first order.  SQLite: the rows left are exactly the newest N by tsb.
+            non-history file is never deleted, a live file is never unlocked, kept files keep their
+            commands, and the deleted set is a prefix of the oldest-first order.  SQLite: the rows left
+            are exactly the newest N by tsb, nothing goes when rows <= N or the unit is not commands.
+Known     : C14-F1 (0 files, forced), C14-F2 (SQLite 0 commands), C14-F3 (SQLite GC ignores the history's
+            own file name) - narrow predicates is_f1_shape / is_f2_shape / is_f3_shape; exactly those
+            outcomes are tolerated in the generated campaigns (counted in excluded_known) and exercised
+            by the replay tier.
 """
 
 from __future__ import annotations
@@ -277,9 +284,14 @@ def _prepare_json(case):
     _wipe(st["data"], keep=("history_json",))
     _wipe(st["hist"])
     _wipe(st["custom"])
+    # decoys are well-formed, unlocked, ancient histories: if a loosened file-name filter picked them up they
+    # would be the first to go
+    if "decoy" not in st:
+        st["decoy"] = xlj.dumps({"cmds": [{"inp": "decoy\n", "rtn": 0, "ts": [1.0, 2.0]}], "locked": False,
+                                 "sessionid": "decoy", "ts": [1.0, 2.0]}, sort_keys=True)
     for where, name in DECOYS:
         with open(os.path.join(st[where], name), "w") as f:
-            f.write('{"cmds": []}')
+            f.write(st["decoy"])
     info = []
     seen_names = set()
     for m in case["files"]:
@@ -351,7 +363,16 @@ def _amounts(cands, unit, alt=False):
 
 
 def resolve_limit(lim, cands):
-    """Turn the limit's anchor (a place relative to the collection) into a number."""
+    """Turn the limit's anchor (a place relative to the collection) into a number; `snap` rounds it down to a
+    multiple of 60 / 3600 / 86400 / 1024 so that it can be spelled in minutes, hours, days, kb."""
+    v = _resolve_limit(lim, cands)
+    snap = lim.get("snap")
+    if snap and v > snap:
+        v = int(v // snap) * snap
+    return v
+
+
+def _resolve_limit(lim, cands):
     unit, a = lim["unit"], lim["anchor"]
     if a[0] == "abs":
         return a[1]
@@ -452,6 +473,8 @@ def _call_guarded(fn):
             fn()
         except _Timeout:
             exc = "hang"
+        except common.HarnessError:
+            raise
         except Exception as e:  # noqa: BLE001
             exc = "%s: %s" % (type(e).__name__, e)
     finally:
@@ -659,7 +682,8 @@ def is_f2_shape(case, unit, N, nrows):
 
 def is_f3_shape(case):
     """C14-F3: SQLite history constructed with an explicit filename (what shell.py does with
-    $XONSH_HISTORY_FILE) that is not the default database location."""
+    $XONSH_HISTORY_FILE) that is not the default database location; the narrow predicate additionally
+    requires that GC left that table alone and created/opened the default-location database instead."""
     return case["backend"] == "sqlite" and case.get("file") == "filename"
 
 
@@ -754,8 +778,10 @@ def run_sqlite_case(case, tolerate=True, stats=None):
         before = read()
         if len(before) != len(rows):
             raise common.HarnessError("SQLite table has %d rows after %d appends" % (len(before), len(rows)))
-        exc, texc, out = _call_guarded(go)
+        exc, texc, _ = _call_guarded(go)
         after = read()
+        default_db = os.path.join(st["data"], "xonsh-history.sqlite")
+        wrong_db_touched = (os.path.normpath(box["hist"].filename) != default_db and os.path.exists(default_db))
     finally:
         env["XONSH_HISTORY_SIZE"] = st["default_size"]
         env["XONSH_HISTORY_FILE"] = None
@@ -803,7 +829,7 @@ def run_sqlite_case(case, tolerate=True, stats=None):
         if kind == "not-collected":
             if is_f2_shape(case, unit, N, n):
                 finding = "C14-F2"
-            elif is_f3_shape(case):
+            elif is_f3_shape(case) and wrong_db_touched:
                 finding = "C14-F3"
         if finding and tolerate:
             if stats is not None:
@@ -918,10 +944,21 @@ def exhaustive_collections(tier):
         for combo in itertools.product(states, repeat=k):
             files = []
             for i, (c, lk) in enumerate(combo):
-                age = (k - i) * 1000 + (BOOT_AGE if lk == "stale" else 0)
+                # file i is the i-th oldest of its class; the oldest unlocked/live file opened (closed) exactly
+                # at boot time (ts[0] == boot is still "live"), stale files lie before boot
+                age = BOOT_AGE + (k - i) * 1000 if lk == "stale" else BOOT_AGE - i * 1000
                 files.append({"id": "e%d" % i, "name": "xonsh-%s%d.json" % (_NAMES[i], i), "where": "hist",
                               "kind": "ok", "lock": lk, "ncmds": c, "pad": 0, "age": age})
             yield files
+
+
+def _dev_stride():
+    """VERIF_C14_STRIDE=k (development only): visit every k-th collection of the small scope and 1/k of the
+    generated cases, to smoke-test the thorough tier quickly.  The evidence then does not claim the sub-space."""
+    try:
+        return max(1, int(os.environ.get("VERIF_C14_STRIDE") or 1))
+    except ValueError:
+        return 1
 
 
 def worker_exhaustive(arg):
@@ -930,9 +967,10 @@ def worker_exhaustive(arg):
     st = Stats()
     _, _, limits = small_scope(tier)
     routes = ("size-tuple", "env-tuple", "cli")
+    stride = _dev_stride()
     j = 0
     for i, files in enumerate(exhaustive_collections(tier)):
-        if i % nshards != shard:
+        if i % nshards != shard or (i // nshards) % stride:
             continue
         for unit in ("commands", "files"):
             for L in limits:
@@ -963,6 +1001,7 @@ _WHERE = ["hist"] * 8 + ["data", "data", "custom"]
 _CUTS = [0.5, 0.01, 0.03, 0.1, 0.3, 0.7, 0.9, 0.99, 1.0]
 _DURS = [10, 0.5, 10, 3600, 86400 * 3]
 _CUSTOM_NAMES = ["myhist.json", ".xonsh_history", "xonsh-custom.json"]
+_SNAPS = {"s": (0, 0, 0, 60, 3600, 86400), "b": (0, 0, 1024)}
 
 
 def json_case_strategy(max_files=8):
@@ -978,7 +1017,7 @@ def json_case_strategy(max_files=8):
     s_own = hs.sampled_from(["unset", "own-default", "own-default", "own-custom"])
     s_kl = hs.sampled_from(_KIND_LOCK)
     s_cp = hs.sampled_from(_NCMDS_PAD)
-    s_x = hs.integers(0, 2 ** 20 - 1)
+    s_x = hs.integers(0, 2 ** 22 - 1)
     s_unit = hs.sampled_from(UNITS)
     s_akind = hs.sampled_from(["suffix"] * 5 + ["prefix"] * 3 + ["total"] * 2 + ["abs"] * 3)
     s_abs = hs.sampled_from([0, 0, 1, 2, 3, 5, 8, 13, 60, 4096, 10 ** 6, 10 ** 12, -1, -3])
@@ -1008,6 +1047,11 @@ def json_case_strategy(max_files=8):
                 a = a % BOOT_AGE + 1
             if lock == "stale" and a <= BOOT_AGE:
                 a = a + BOOT_AGE
+            if x % 4 == 3:          # the boot boundary itself: opened exactly at boot / just before it
+                edge = {"live": BOOT_AGE, "stale": BOOT_AGE + 0.5}.get(lock)
+                if edge is not None and edge not in used_ages:
+                    a = edge
+            x //= 4
             while a in used_ages:
                 a += 1
                 if lock == "live" and a > BOOT_AGE:
@@ -1044,7 +1088,12 @@ def json_case_strategy(max_files=8):
         else:
             anchor = [akind, draw(s_n), draw(s_d[unit == "s"])]
         y = draw(s_y)
-        return {"backend": "json", "files": files, "limit": {"unit": unit, "anchor": anchor},
+        lim = {"unit": unit, "anchor": anchor}
+        snaps = _SNAPS.get(unit, (0,))
+        snap = snaps[(y >> 7) % len(snaps)]
+        if snap:
+            lim["snap"] = snap
+        return {"backend": "json", "files": files, "limit": lim,
                 "force": bool(y & 1), "route": ROUTES[(y >> 1) % len(ROUTES)], "own": own, "spell": y >> 4}
 
     return cases()
@@ -1116,20 +1165,24 @@ def main(run):
     common.replay_tier(run, _replay_case)
     nw = 8 if run.tier == "quick" else 16          # shards / seeds (fixed, so results do not depend on procs)
     procs = max(1, min(16, int(os.environ.get("VERIF_PROCS") or 16)))
-    per = run.n(2000, 40000)
-    pers = run.n(400, 6000)
+    stride = _dev_stride()
+    per = run.n(2000, 40000) // stride
+    pers = run.n(250, 5000) // stride
     tasks = [("exhaustive", (i, nw, run.tier, run.scratch)) for i in range(nw)]
     tasks += [("random", (common.worker_seed(run.seed, w), per, "json", run.scratch)) for w in range(nw)]
     tasks += [("random", (common.worker_seed(run.seed, 200 + w), pers, "sqlite", run.scratch)) for w in range(nw)]
     common.pool_map(run, __name__, "worker_any", tasks, procs=procs)
     mf, counts, limits = small_scope(run.tier)
-    run.extra["exhaustive_subspace"] = (
-        "every collection of <= %d history files x command counts %s x lock {no, live, stale} x limit %d..%d x "
-        "units {commands, files} x force {off, on}, each through JsonHistory.run_gc on a real directory"
-        % (mf, list(counts), limits[0], limits[-1]))
+    if stride == 1:
+        run.extra["exhaustive_subspace"] = (
+            "every collection of <= %d history files x command counts %s x lock {no, live, stale} x limit %d..%d x "
+            "units {commands, files} x force {off, on}, each through JsonHistory.run_gc on a real directory"
+            % (mf, list(counts), limits[0], limits[-1]))
+    else:
+        run.stats.notes.append("VERIF_C14_STRIDE=%d: development run, small scope NOT enumerated completely" % stride)
     h = run.stats.hist
-    floors = [("limit-strictly-inside", 0.10), ("has-live", 0.10), ("has-stale", 0.05), ("zone:must-refuse", 0.03),
-              ("zone:must-run", 0.03), ("zone:forced", 0.10)]
+    floors = [("limit-strictly-inside", 0.06), ("has-live", 0.15), ("has-stale", 0.10), ("has-corrupt", 0.02),
+              ("zone:must-refuse", 0.03), ("zone:must-run", 0.01), ("zone:forced", 0.05), ("live-would-be-discarded", 0.03)]
     total = max(1, sum(v for k, v in h.items() if k.startswith(("json:", "exhaustive:"))))
     low = [lab for lab, fl in floors if h.get(lab, 0) / total < fl]
     if low:
